@@ -6,7 +6,8 @@ use clap::{Args, Parser, ValueEnum};
 
 use sfs_core::{
     array::{Axis, Shape},
-    spectrum, Input,
+    spectrum::{self, MarginalizationError},
+    Input,
 };
 
 /// Format, marginalize, project, and convert SFS.
@@ -161,9 +162,27 @@ impl View {
         if let Some(marginalize) = self.marginalize {
             // If marginalizing, normalize to indices to marginalize away (rather than keep)
             let axes = match (marginalize.keep, marginalize.remove) {
-                (Some(keep), None) => (0..scs.dimensions())
-                    .filter(|i| !keep.contains(i))
-                    .collect(),
+                (Some(keep), None) => {
+                    // The axes to keep must be valid axes, named once, just as axes to remove
+                    if let Some((_, &axis)) = keep
+                        .iter()
+                        .enumerate()
+                        .find(|(i, axis)| keep[..*i].contains(axis))
+                    {
+                        return Err(MarginalizationError::DuplicateAxis { axis }.into());
+                    }
+                    if let Some(&axis) = keep.iter().find(|&&axis| axis >= scs.dimensions()) {
+                        return Err(MarginalizationError::AxisOutOfBounds {
+                            axis,
+                            dimensions: scs.dimensions(),
+                        }
+                        .into());
+                    }
+
+                    (0..scs.dimensions())
+                        .filter(|i| !keep.contains(i))
+                        .collect()
+                }
 
                 (None, Some(remove)) => remove,
                 _ => unreachable!("checked by clap"),
